@@ -15,7 +15,8 @@ deriving DecidableEq, Repr
 def Kind.width : Kind → Nat
   | .uint w => w | .sint w => w | .pad n => n | .text n => n
 
-/-- a field value: a Python `int` or (for `CH`) a `str`, kept as ASCII codes -/
+/-- a field value: a Python `int` or (for `CH`) a `str`, kept as the bytes of its UTF-8 encoding
+    (Python's codec being a bijection between well-formed UTF-8 and surrogate-free `str`s belongs to the runtime) -/
 inductive Val
   | int (v : Int)
   | str (s : List Nat)
@@ -28,6 +29,34 @@ def Table.size (t : Table) : Nat := (t.map (·.2.width)).sum
 
 /-- `text.rstrip('\x00')` -/
 def stripNuls (s : List Nat) : List Nat := (s.reverse.dropWhile (· == 0)).reverse
+
+def isCont (b : Nat) : Bool := 0x80 ≤ b && b ≤ 0xBF
+
+/-- what `bytes.decode()` (UTF-8, strict) accepts: shortest forms only, no surrogates, nothing above U+10FFFF
+    (Unicode Table 3-7, well-formed UTF-8 byte sequences) -/
+def validUtf8 : List Nat → Bool
+  | [] => true
+  | b0 :: rest =>
+    if b0 < 0x80 then validUtf8 rest
+    else if 0xC2 ≤ b0 && b0 ≤ 0xDF then
+      match rest with
+      | b1 :: r => isCont b1 && validUtf8 r
+      | _ => false
+    else if 0xE0 ≤ b0 && b0 ≤ 0xEF then
+      match rest with
+      | b1 :: b2 :: r =>
+          (if b0 = 0xE0 then 0xA0 ≤ b1 && b1 ≤ 0xBF else if b0 = 0xED then 0x80 ≤ b1 && b1 ≤ 0x9F else isCont b1)
+            && isCont b2 && validUtf8 r
+      | _ => false
+    else if 0xF0 ≤ b0 && b0 ≤ 0xF4 then
+      match rest with
+      | b1 :: b2 :: b3 :: r =>
+          (if b0 = 0xF0 then 0x90 ≤ b1 && b1 ≤ 0xBF else if b0 = 0xF4 then 0x80 ≤ b1 && b1 ≤ 0x8F else isCont b1)
+            && isCont b2 && isCont b3 && validUtf8 r
+      | _ => false
+    else false
+termination_by l => l.length
+decreasing_by all_goals (simp_wf; try omega)
 
 /-- the value a freshly constructed item holds -/
 def Kind.default : Kind → Val
@@ -42,7 +71,7 @@ def Kind.unpack (k : Kind) (data : List Nat) : Except Exc (Val × Nat) :=
   | .pad n => .ok (.int 0, n)
   | .text n =>
       if data.length < n then .error .valueError
-      else if (data.take n).any (· ≥ 128) then .error .nonAscii
+      else if !validUtf8 (data.take n) then .error .valueError     -- `UnicodeDecodeError`, re-raised as `ValueError`
       else .ok (.str (stripNuls (data.take n)), n)
 
 /-- `item.pack()` -/
@@ -52,8 +81,7 @@ def Kind.pack (k : Kind) (v : Val) : Except Exc (List Nat) :=
   | .sint w, .int v => packI w v
   | .pad n, _ => .ok (List.replicate n 0)
   | .text n, .str s =>
-      if s.any (· ≥ 128) then .error .nonAscii
-      else if s.length > n then .error .valueError
+      if s.length > n then .error .valueError
       else .ok (s ++ List.replicate (n - s.length) 0)
   | .uint _, .str _ => .error .structError     -- "required argument is not an integer"
   | .sint _, .str _ => .error .structError
